@@ -46,6 +46,20 @@ def main():
                     dict(mm, build=flavour))
         if plan:
             ck.sample(dict(kind='ledger job', build=flavour, job={k: v for k, v in plan[0].items() if k != 'indices'}, transitions=len(plan[0]['indices'])))
+    # 3. references around rejected loads (a state that fails part-way, onto a container that holds entries; object-keyed,
+    #    object-valued and mixed families) and cyclic garbage through stored objects (every kind, first / middle / last leaf)
+    for flavour in ('plain', 'asan'):
+        mplan = [dict(fam=f) for f in (['OO', 'OI', 'IO', 'LO', 'OL'] if flavour == 'plain' else ['OO', 'OI', 'IO'])]
+        for job, res, err in jobs.run_jobs('harness.workers.ledger_misc_worker', mplan, flavour=flavour):
+            ident = dict(fam=job['fam'], build=flavour)
+            if err:
+                ck.violation('ledger worker (rejected loads, cycles) died on the %s build %s: %s' % (flavour, ident, err[-1500:]), dict(ident, kind='crash', err=err[-3000:]))
+                continue
+            for k, v in res['counts'].items():
+                ck.bump('%s_%s' % (flavour, k), v)
+            ck.add_traces(res['counts']['rejected_loads'] + res['counts']['cycles'])
+            for mm in res['mismatches']:
+                ck.violation('%s %s build: %s %s' % (job['fam'], flavour, mm['kind'], json.dumps({k: v for k, v in mm.items() if k not in ('kind',)})[:300]), dict(mm, build=flavour))
     ck.assumptions += ['reference counts are read with sys.getrefcount on one key object per rank and one value object per rank, '
                        'with the collector disabled and no temporaries alive',
                        'memory errors inside one C statement are only visible to the sanitizer build (clang 14 ASan+UBSan), '
